@@ -1,6 +1,8 @@
 package c07
 
 import (
+	"archive/zip"
+	"bytes"
 	"fmt"
 	"os"
 	"path/filepath"
@@ -25,10 +27,10 @@ func TestMain(m *testing.M) {
 		os.Exit(childMain(p))
 	}
 	if kit.RaceMode() {
-		kit.TestMain(m, 110, 1200)
+		kit.TestMain(m, 60, 1000)
 		return
 	}
-	kit.TestMain(m, 380, 5000)
+	kit.TestMain(m, 280, 4000)
 }
 
 // Case is a set of histories on distinct documents plus the two schedules they are executed under.
@@ -37,6 +39,7 @@ type Case struct {
 	Order []int      `json:"order"`           // sequential interleaving: entry e lets document e%len(Docs) execute its next op
 	Yield [][]bool   `json:"yield,omitempty"` // concurrent: Yield[d][i] = call runtime.Gosched() before op i of document d
 	Procs int        `json:"procs"`           // GOMAXPROCS of the concurrent part
+	Reps  int        `json:"reps,omitempty"`  // >1: the concurrent part is executed Reps times (regression cases of schedule-dependent defects; never generated)
 	Sub   int        `json:"sub,omitempty"`   // >0: run the concurrent part Sub times in a child process (witnesses of process-killing races; never generated)
 }
 
@@ -183,6 +186,24 @@ func genCase(t *rapid.T) Case {
 		reg := mode == 2 || (mode == 1 && d == owner)
 		cfg := &ops.Config{Classes: classes, Weights: weights(reg, focus)}
 		h := cfg.History(t, 1, maxOps)
+		if rapid.IntRange(0, 4).Draw(t, "render-scenario") == 0 {
+			// a base document that already has notes / list items is rendered as a template and the render (or the
+			// second render of tpldoc2) gets more of them: base, renders and siblings must stay what they were
+			noteKinds := []string{"footnote", "endnote", "listitem", "footnote", "endnote", "bullet", "para"}
+			var sc []ops.Op
+			for i, m := 0, rapid.IntRange(1, 3).Draw(t, "pre"); i < m; i++ {
+				sc = append(sc, cfg.OpOf(t, rapid.SampledFrom(noteKinds).Draw(t, "prek")))
+			}
+			sc = append(sc, cfg.OpOf(t, rapid.SampledFrom([]string{"tpldoc", "tpldoc2", "tpldoc"}).Draw(t, "renderk")))
+			for i, m := 0, rapid.IntRange(1, 3).Draw(t, "post"); i < m; i++ {
+				sc = append(sc, cfg.OpOf(t, rapid.SampledFrom(noteKinds).Draw(t, "postk")))
+			}
+			if len(h) > maxOps/2 {
+				h = h[:maxOps/2]
+			}
+			cut := rapid.IntRange(0, len(h)).Draw(t, "scenario-at")
+			h = append(append(append([]ops.Op{}, h[:cut]...), sc...), h[cut:]...)
+		}
 		sanitiseTemplateData(h)
 		c.Docs = append(c.Docs, h)
 		total += len(h)
@@ -233,6 +254,88 @@ type docRun struct {
 	x        *ops.Exec
 	outcomes []string
 	dead     bool // an op panicked: the state is undefined, later ops are not executed
+
+	// I4: documents of this history that stopped being the current one (template bases, earlier renders, the
+	// document before a markdown conversion). Nobody touches them afterwards, so they must not change.
+	track bool // snapshot documents at the moment they are set aside (alone and concurrent runs)
+	seen  map[*document.Document]bool
+	aside []asideDoc
+	i4    []string // differences found when the history ended
+
+	tbOK    bool  // the final ToBytes of the current document succeeded
+	zipNames string // race twin: only the entry names of the final ToBytes are kept
+	pkgSnap  *Snap  // its parts (reference for the files written by Save in the concurrent part)
+}
+
+type asideDoc struct {
+	doc *document.Document
+	op  int
+	at  *Snap // observed at the moment it was set aside
+}
+
+const maxAside = 5
+
+// sideSnap observes a document that is not the current one of its history: bytes and accessor results.
+func sideSnap(d *document.Document) *Snap {
+	s := &Snap{}
+	// accessors first: GetPageSettings materialises an (empty) section-properties element on first use, which
+	// would otherwise make the second observation differ from the first through the observer's own calls
+	s.addAccessors(d)
+	s.addCounts(d)
+	var b []byte
+	var err error
+	if p, _ := kit.Try(func() { b, err = d.ToBytes() }); p != nil || err != nil {
+		s.add(Item{Name: "ToBytes", Kind: "outcome", Val: fmt.Sprintf("panic=%v err=%v", p, err != nil)})
+	} else {
+		s.add(Item{Name: "ToBytes", Kind: "outcome", Val: "ok"})
+		s.addPackage("", b)
+	}
+	return s
+}
+
+// noteAside snapshots the documents that the last op set aside.
+func (r *docRun) noteAside() {
+	if r.x == nil || len(r.x.Side) == 0 || kit.RaceMode() {
+		return
+	}
+	if r.seen == nil {
+		r.seen = map[*document.Document]bool{}
+	}
+	for _, sd := range r.x.Side {
+		if sd == nil || r.seen[sd] {
+			continue
+		}
+		r.seen[sd] = true
+		if len(r.aside) < maxAside && sd != r.x.Doc {
+			a := asideDoc{doc: sd, op: len(r.outcomes)}
+			if r.track {
+				a.at = sideSnap(sd)
+			}
+			r.aside = append(r.aside, a)
+		}
+	}
+}
+
+// checkAside compares every set-aside document with what it was when it was set aside.
+// The end-of-history observation of each is added to s ("side<j>:..."), so that it is also compared between the runs.
+func (r *docRun) checkAside(s *Snap) {
+	for j, a := range r.aside {
+		if r.x != nil && a.doc == r.x.Doc {
+			continue // became the current document again
+		}
+		end := sideSnap(a.doc)
+		for _, it := range end.Items {
+			it.Name = fmt.Sprintf("side%d:%s", j, it.Name)
+			s.add(it)
+		}
+		if a.at == nil {
+			continue
+		}
+		for _, dl := range diffSnaps(a.at, end, 3) {
+			r.i4 = append(r.i4, fmt.Sprintf("the document set aside by op %d (%s) was not touched afterwards but changed: item=%s: %s",
+				a.op-1, strings.SplitN(r.outcomes[a.op-1], ":", 2)[0], dl.Item, strings.Replace(dl.Detail, "alone vs together", "when set aside vs at the end", 1)))
+		}
+	}
 }
 
 func (r *docRun) step(o ops.Op) {
@@ -249,6 +352,9 @@ func (r *docRun) step(o ops.Op) {
 		r.outcomes = append(r.outcomes, o.K+":err:"+err.Error())
 	default:
 		r.outcomes = append(r.outcomes, o.K+":ok")
+	}
+	if !r.dead {
+		kit.Try(r.noteAside)
 	}
 }
 
@@ -273,14 +379,19 @@ func (r *docRun) snap(withCounts bool) *Snap {
 		// the race twin only needs the calls to happen (saving and reading are part of "working on a document");
 		// the bytes are judged by the normal binary
 		s := &Snap{}
-		kit.Try(func() { r.x.Doc.ToBytes() })
-		for _, sd := range r.x.Side {
-			sd := sd
-			kit.Try(func() { sd.ToBytes() })
-		}
 		s.addAccessors(r.x.Doc)
 		if withCounts {
 			s.addCounts(r.x.Doc)
+		}
+		kit.Try(func() {
+			if b, err := r.x.Doc.ToBytes(); err == nil {
+				r.tbOK = true
+				r.zipNames = zipNames(b)
+			}
+		})
+		for _, sd := range r.x.Side {
+			sd := sd
+			kit.Try(func() { sd.ToBytes() })
 		}
 		return s
 	}
@@ -289,22 +400,29 @@ func (r *docRun) snap(withCounts bool) *Snap {
 		s.add(Item{Name: "outcomes", Kind: "outcome", Val: strings.Join(r.outcomes, ";")})
 		return s
 	}
-	return takeSnap(r.x, r.outcomes, withCounts)
+	s := takeSnap(r.x, r.outcomes, withCounts)
+	if i, ok := s.index["ToBytes"]; ok && s.Items[i].Val == "ok" {
+		r.tbOK = true
+		r.pkgSnap = s
+	}
+	kit.Try(func() { r.checkAside(s) })
+	return s
 }
 
 // runAlone builds document d in a process state without any other document.
-func runAlone(base string, d int, history []ops.Op) *Snap {
+func runAlone(base string, d int, history []ops.Op, track bool) (*Snap, []string) {
 	document.VerifResetGlobals()
 	r := newRun(base, d)
+	r.track = track
 	for _, o := range history {
 		r.step(o)
 	}
-	return r.snap(true)
+	return r.snap(true), r.i4
 }
 
 // runInterleaved executes all histories in one goroutine in the order the case prescribes and returns the
 // snapshots (taken after every history has finished) and the realised schedule.
-func runInterleaved(base string, c Case) ([]*Snap, []int) {
+func runInterleaved(base string, c Case) ([]*Snap, []int, [][]string) {
 	document.VerifResetGlobals()
 	n := len(c.Docs)
 	runs := make([]*docRun, n)
@@ -339,13 +457,68 @@ func runInterleaved(base string, c Case) ([]*Snap, []int) {
 		}
 		snaps[d] = runs[d].snap(true)
 	}
-	return snaps, sched
+	i4 := make([][]string, n)
+	for d := 0; d < n; d++ {
+		i4[d] = runs[d].i4
+	}
+	return snaps, sched, i4
 }
 
 // runConcurrent executes every history in its own goroutine (document created, edited and observed inside the
 // goroutine). countsInside=false postpones the two registry counters until all goroutines have finished.
 // It returns the snapshots and the number of goroutines whose execution overlapped with another one's.
-func runConcurrent(base string, c Case, countsInside bool) ([]*Snap, int) {
+type concResult struct {
+	snaps      []*Snap
+	overlapped int
+	i4         [][]string
+	save       [][]string // per document: what was wrong with the files written by Save into the shared directory
+}
+
+const saveReps = 2
+
+// diffFileParts compares the parts of a saved file with the parts of the document's own ToBytes.
+func diffFileParts(want *Snap, file []byte) []Delta {
+	got := &Snap{}
+	got.addPackage("", file)
+	var out []Delta
+	for i := range want.Items {
+		a := &want.Items[i]
+		if a.Kind != "part" || !strings.HasPrefix(a.Name, "part:") {
+			continue
+		}
+		j, ok := got.index[a.Name]
+		if !ok {
+			out = append(out, Delta{a.Name, a.Fam, a.Kind, "in ToBytes, not in the saved file"})
+			continue
+		}
+		out = append(out, diffPart(a, &got.Items[j])...)
+	}
+	for _, b := range got.Items {
+		if _, ok := want.index[b.Name]; !ok {
+			out = append(out, Delta{b.Name, b.Fam, b.Kind, "in the saved file, not in ToBytes: " + clip(b.Val, 100)})
+		}
+	}
+	if len(out) > 3 {
+		out = out[:3]
+	}
+	return out
+}
+
+// zipNames lists the entry names of a package, sorted ("unreadable: ..." if it is not a zip).
+func zipNames(b []byte) string {
+	zr, err := zip.NewReader(bytes.NewReader(b), int64(len(b)))
+	if err != nil {
+		return "unreadable: " + err.Error()
+	}
+	var names []string
+	for _, f := range zr.File {
+		names = append(names, f.Name)
+	}
+	sort.Strings(names)
+	return strings.Join(names, " ")
+}
+
+func runConcurrent(base string, c Case, countsInside bool) *concResult {
 	document.VerifResetGlobals()
 	n := len(c.Docs)
 	procs := c.Procs
@@ -357,6 +530,13 @@ func runConcurrent(base string, c Case, countsInside bool) ([]*Snap, int) {
 	for d := 0; d < n; d++ {
 		freshDir(base, d)
 	}
+	shared := filepath.Join(base, "shared")
+	os.RemoveAll(shared)
+	os.MkdirAll(shared, 0o755)
+	saveFail := make([][]string, n)
+	var saving, saved sync.WaitGroup
+	saving.Add(n)
+	saved.Add(n)
 	snaps := make([]*Snap, n)
 	runs := make([]*docRun, n)
 	var steps int64
@@ -372,6 +552,7 @@ func runConcurrent(base string, c Case, countsInside bool) ([]*Snap, int) {
 			<-start
 			first := atomic.AddInt64(&steps, 1)
 			r := newRun(base, d)
+			r.track = true
 			runs[d] = r
 			for i, o := range c.Docs[d] {
 				if d < len(c.Yield) && i < len(c.Yield[d]) && c.Yield[d][i] {
@@ -383,6 +564,49 @@ func runConcurrent(base string, c Case, countsInside bool) ([]*Snap, int) {
 			snaps[d] = r.snap(countsInside)
 			last := atomic.AddInt64(&steps, 1)
 			foreign[d] = (last - first) - int64(len(c.Docs[d])+1)
+
+			// every document is saved, by its own goroutine, into ONE directory under its own file name; the
+			// goroutines enter this phase together so that the Save calls overlap
+			path := filepath.Join(shared, fmt.Sprintf("doc%d.docx", d))
+			var errs []error
+			saving.Done()
+			saving.Wait()
+			if r.x != nil && !r.dead {
+				for i := 0; i < saveReps; i++ {
+					var err error
+					if p, _ := kit.Try(func() { err = r.x.Doc.Save(path) }); p != nil {
+						err = fmt.Errorf("panic: %v", p)
+					}
+					errs = append(errs, err)
+					runtime.Gosched()
+				}
+			}
+			saved.Done()
+			saved.Wait() // nobody writes any more
+			if r.x == nil || r.dead {
+				return
+			}
+			for i, err := range errs {
+				if (err == nil) != r.tbOK {
+					saveFail[d] = append(saveFail[d], fmt.Sprintf("Save #%d of %s returned %v although ToBytes of the same document ok=%v", i, filepath.Base(path), err, r.tbOK))
+					break
+				}
+			}
+			if r.tbOK && (r.pkgSnap != nil || r.zipNames != "") {
+				fb, rerr := os.ReadFile(path)
+				if rerr != nil {
+					saveFail[d] = append(saveFail[d], fmt.Sprintf("the file written by Save cannot be read: %v", rerr))
+				} else if r.pkgSnap == nil {
+					// race twin: the bytes are judged by the normal binary; here the file must be this document's package by its entry names
+					if got := zipNames(fb); got != r.zipNames {
+						saveFail[d] = append(saveFail[d], fmt.Sprintf("file %s written by Save has entries [%s], the document's ToBytes has [%s]", filepath.Base(path), clip(got, 300), clip(r.zipNames, 300)))
+					}
+				} else {
+					for _, dl := range diffFileParts(r.pkgSnap, fb) {
+						saveFail[d] = append(saveFail[d], fmt.Sprintf("file %s written by Save differs from the document's ToBytes: item=%s: %s", filepath.Base(path), dl.Item, dl.Detail))
+					}
+				}
+			}
 		}(d)
 	}
 	ready.Wait()
@@ -397,7 +621,13 @@ func runConcurrent(base string, c Case, countsInside bool) ([]*Snap, int) {
 			snaps[d].addCounts(runs[d].x.Doc)
 		}
 	}
-	return snaps, overlapped
+	i4 := make([][]string, n)
+	for d := 0; d < n; d++ {
+		if runs[d] != nil {
+			i4[d] = runs[d].i4
+		}
+	}
+	return &concResult{snaps: snaps, overlapped: overlapped, i4: i4, save: saveFail}
 }
 
 // judge reports the deltas of one document under one clause.
@@ -486,8 +716,16 @@ func run(c Case) *kit.Result {
 
 	// every document alone (the race twin judges only I3 and needs no reference)
 	alone := make([]*Snap, n)
+	reportI4 := func(where string, d int, diffs []string) {
+		for _, x := range diffs {
+			res.Fail("C07.I4", "doc=%d (%s): %s", d, where, x)
+		}
+	}
 	for d := 0; d < n && !race; d++ {
-		alone[d] = runAlone(base, d, c.Docs[d])
+		var i4 []string
+		alone[d], i4 = runAlone(base, d, c.Docs[d], true)
+		res.Eval("C07.I4")
+		reportI4("built alone", d, i4)
 	}
 
 	between := false
@@ -495,13 +733,16 @@ func run(c Case) *kit.Result {
 		// I0: the reference itself is a function of the calls (same history, same fresh state, twice); every third case
 		if len(c.Order)%3 == 0 {
 			res.Eval("C07.I0")
-			again := runAlone(base, 0, c.Docs[0])
+			again, _ := runAlone(base, 0, c.Docs[0], false)
 			for _, dl := range diffSnaps(alone[0], again, 2) {
 				res.Fail("C07.I0", "doc=0 built alone twice from the same calls differs: item=%s: %s", dl.Item, dl.Detail)
 			}
 		}
 		// I1: sequential interleaving
-		snaps, sched := runInterleaved(base, c)
+		snaps, sched, i4 := runInterleaved(base, c)
+		for d := 0; d < n; d++ {
+			reportI4("interleaved", d, i4[d])
+		}
 		seenA, seenBafterA := false, false
 		for _, d := range sched {
 			switch {
@@ -533,17 +774,31 @@ func run(c Case) *kit.Result {
 			if race {
 				kit.RaceDelta() // nothing before the concurrent part belongs to this case
 			}
-			snaps, ov := runConcurrent(base, c, !raceOpen())
-			overlapped = ov
-			if race {
-				res.Eval("C07.I3")
-				if rep := kit.RaceDelta(); rep != "" {
-					res.Fail("C07.I3", "race detector report while %d goroutines worked on distinct documents: %s", n, clip(rep, 1200))
-				}
+			reps := c.Reps
+			if reps < 1 {
+				reps = 1
 			}
-			for d := 0; d < n && !race; d++ {
-				res.Eval("C07.I2")
-				judge(res, "C07.I2", d, alone[d], snaps[d])
+			for rep := 0; rep < reps && len(res.Failures) == 0; rep++ {
+				cr := runConcurrent(base, c, !raceOpen())
+				overlapped = cr.overlapped
+				if race {
+					res.Eval("C07.I3")
+					if report := kit.RaceDelta(); report != "" {
+						res.Fail("C07.I3", "race detector report while %d goroutines worked on distinct documents: %s", n, clip(report, 1200))
+					}
+				}
+				for d := 0; d < n; d++ {
+					// the files the goroutines saved side by side into one directory (both binaries)
+					res.Eval("C07.I2")
+					for _, x := range cr.save[d] {
+						res.Fail("C07.I2", "doc=%d item=save-into-shared-directory: %s", d, x)
+					}
+					if race {
+						continue
+					}
+					judge(res, "C07.I2", d, alone[d], cr.snaps[d])
+					reportI4("own goroutine", d, cr.i4[d])
+				}
 			}
 			res.Label(fmt.Sprintf("conc:overlapped=%d", min(overlapped, 3)))
 			res.Label(fmt.Sprintf("conc:procs=%d", c.Procs))
@@ -579,6 +834,7 @@ func TestC07(t *testing.T) {
 		Rule: "2-5 generated histories (1-12 ops each, thorough 1-25; whole document API except reopen, strings of all classes) on distinct documents, a drawn sequential interleaving and a drawn concurrent schedule (Gosched points, GOMAXPROCS 2/4/16); " +
 			"1-3 drawn focus families (images, headers/footers, styles, properties, page settings, tables, templates, markdown, TOC) are boosted in every document so that the documents use the same per-document machinery; " +
 			"non-trivial (normal binary) = A and some B have >=3 distinct op kinds and a B-op is executed strictly between two A-ops; non-trivial (race twin) = the same richness and min(3, #documents) goroutines overlapped in time (shared atomic step counter); " +
+			"one history in five contains {notes/list items, template render, more notes/list items}; documents set aside inside a history are observed twice (I4); the concurrent part ends with overlapping Save calls of all documents into one shared directory; " +
 			"distinct = distinct vector of (history length, op families used) per document",
 		Gen: genCase, Run: run, Findings: fs, Fixed: fixedCases,
 		Assumptions: []string{
